@@ -99,8 +99,16 @@ func (nfc *NfcSession) GetChallenge(length int) (out []byte, err error) {
 	return rapdu.Data, nil
 }
 
+// authLe is the expected length (Le) for the authentication commands. maxLe is the chunk size for reading files
+// (set by the caller, or lowered by the READ BINARY fallback for chips that reject larger reads); the answer to an
+// authentication command has the size it has - a signature, a public key - and a chip must not return more than Le,
+// so a chunk size below that would make the command fail. At least a full short-length response is requested.
+func (nfc *NfcSession) authLe() int {
+	return max(nfc.maxLe, 256)
+}
+
 func (nfc *NfcSession) InternalAuthenticate(data []byte) (out []byte, err error) {
-	var cApdu *CApdu = NewCApdu(0, INS_INTERNAL_AUTHENTICATE, 0x00, 0x00, data, nfc.maxLe)
+	var cApdu *CApdu = NewCApdu(0, INS_INTERNAL_AUTHENTICATE, 0x00, 0x00, data, nfc.authLe())
 
 	var rApdu *RApdu
 
@@ -149,7 +157,7 @@ func (nfc *NfcSession) GeneralAuthenticate(commandChaining bool, data []byte) ([
 		cla = 0x10
 	}
 
-	cApdu := NewCApdu(byte(cla), INS_GENERAL_AUTHENTICATE, 0x00, 0x00, data, nfc.maxLe)
+	cApdu := NewCApdu(byte(cla), INS_GENERAL_AUTHENTICATE, 0x00, 0x00, data, nfc.authLe())
 
 	rApdu, err := nfc.DoAPDU(cApdu, "General Authenticate")
 	if err != nil {
